@@ -316,6 +316,12 @@ def run_case(case, rec, mon=None):
             for b in R.BARK_BREAKS_SCALE:
                 ss += [b, np.nextafter(b, 0), np.nextafter(b, 99), b - 1e-9, b + 1e-9, b - 1e-3, b + 1e-3]
         ss += [s_lo, s_hi]
+        # scale values as people write them: one and two decimals (0.3, 1.25, ...), as literals and as quotients
+        tenths = [k / 10 for k in range(int(math.ceil(s_lo * 10)), int(math.floor(s_hi * 10)) + 1)]
+        if len(tenths) > 300:
+            tenths = [tenths[i] for i in sorted(rng.choice(len(tenths), 300, replace=False))]
+        ss += tenths + [round(float(v), 2) for v in rng.uniform(s_lo, min(s_hi, s_lo + 3.0), 40)] + [round(float(v), 2) for v in rng.uniform(s_lo, s_hi, 40)]
+        rec.count("scale_values_with_one_or_two_decimals", len(tenths) + 80)
         whole = np.arange(math.ceil(s_lo), math.floor(s_hi) + 1)
         if len(whole) > 60:
             whole = rng.choice(whole, 60, replace=False)
@@ -381,6 +387,52 @@ def run_case(case, rec, mon=None):
                 if not abs(float(f2) - f) <= RT * max(1.0, abs(f)):
                     rec.violation({"what": "%s after assigning %r: scale_to_hertz(hertz_to_scale(%r)) = %r" % (type(sc).__name__, new, f, float(f2)), "check": "roundtrip_fsf",
                                    "cls": type(sc).__name__, "params": new, "arg": f, "case": case})
+        rec.sample({"kind": kind, "n": case["n"]})
+    elif kind == "together":
+        # several scales of one class with different parameters alive in one program and used in turn (the banks of a multi-resolution
+        # front end): each is the scale its own constructor arguments describe - judged against those, not against what the object reports
+        from pydrobert.speech import scales as S
+
+        rng = rng_for(case["seed"], "C19", case["idx"])
+        for _ in range(case["n"]):
+            name = str(rng.choice(["octave", "linear"]))
+            K = int(rng.integers(2, 6))
+            plist = []
+            for k in range(K):
+                if name == "octave":
+                    plist.append({"low_hz": float(rng.choice([20.0, 27.5, 55.0, 110.0, float(rng.uniform(5, 300))]))})
+                else:
+                    plist.append({"low_hz": float(rng.uniform(-200, 200)), "slope_hz": float(np.exp(rng.uniform(-2, 2)))})
+            hows = [None, None, "from_alias", "factory_dict"]
+            objs = [_build(name, dict(pr), hows[int(rng.integers(len(hows)))], mon) for pr in plist]
+            refs = [R.ref_pair(name, pr) for pr in plist]
+            rec.count("groups_of_scales_alive_together")
+            for rnd in range(3):
+                for k in rng.permutation(K):
+                    sc, pr, (fwd, inv) = objs[k], plist[k], refs[k]
+                    f = float(rng.uniform(max(pr["low_hz"], 1.0) * 1.01, 8000.0))
+                    rec.ev()
+                    try:
+                        sv = float(sc.hertz_to_scale(f))
+                        back = float(sc.scale_to_hertz(sv))
+                        want_s = fwd(f)
+                        hz = float(sc.scale_to_hertz(want_s))
+                    except Exception as e:
+                        rec.violation({"what": "%s(%r) used next to %d other scales raised %r" % (name, pr, K - 1, e), "check": "raise", "cls": name, "params": pr, "arg": f, "case": case})
+                        continue
+                    if not abs(sv - want_s) <= REL_REF * abs(want_s) + ABS_REF:
+                        rec.violation({"what": "%s(%r).hertz_to_scale(%r) = %r while %d other scales of the class are alive; the formula with its own parameters gives %r"
+                                               % (name, pr, f, sv, K - 1, want_s), "check": "reference_together", "cls": name, "params": pr, "direction": "fwd", "arg": f, "case": case})
+                    elif not (abs(back - f) <= RT * max(1.0, abs(f)) and abs(hz - f) <= RT * max(1.0, abs(f))):
+                        rec.violation({"what": "%s(%r): scale_to_hertz(hertz_to_scale(%r)) = %r while %d other scales of the class are alive" % (name, pr, f, back, K - 1),
+                                       "check": "roundtrip_together", "cls": name, "params": pr, "arg": f, "case": case})
+            if rng.random() < 0.5:
+                # ... and what each reports about itself is what it was given
+                for sc, pr in zip(objs, plist):
+                    for kk, vv in pr.items():
+                        if float(getattr(sc, kk)) != vv:
+                            rec.violation({"what": "%s built with %r reports %s = %r after other scales of the class were built" % (name, pr, kk, getattr(sc, kk)),
+                                           "check": "attribute_together", "cls": name, "params": pr, "case": case})
         rec.sample({"kind": kind, "n": case["n"]})
     elif kind == "octave_reject":
         from pydrobert.speech.scales import OctaveScaling
@@ -492,6 +544,9 @@ def _cases(tier, seed):
             idx += 1
     for k in range(2 if tier == "quick" else 16):
         cases.append({"kind": "mutate", "n": 40, "seed": seed, "idx": idx})
+        idx += 1
+    for k in range(2 if tier == "quick" else 16):
+        cases.append({"kind": "together", "n": 25, "seed": seed, "idx": idx})
         idx += 1
     cases.append({"kind": "octave_reject", "bad": [0, 0.0, -0.0, -1, -1e-300, -20.0, -1e9], "good": [1e-300, 1e-3, 1.0, 20.0, 4000.0], "typed": True, "seed": seed, "idx": idx})
     idx += 1
